@@ -5,10 +5,12 @@ package olareg
 import (
 	"strconv"
 	"strings"
+	"time"
 
 	digest "github.com/opencontainers/go-digest"
 
 	"github.com/olareg/olareg/config"
+	"github.com/olareg/olareg/internal/verifenv/vclock"
 	"github.com/olareg/olareg/internal/verifenv/vh"
 	"github.com/olareg/olareg/internal/verifenv/vos"
 )
@@ -297,4 +299,67 @@ func VH_C08_Bound() {
 		vh.Assert(vhUploadFiles("a") == open, "C08.no-temp-residue")
 	}
 	vh.Cover("C08.bound-end")
+}
+
+// VH_C08_Expiry: sessions expire in every round of a repository's life, however the
+// session table was emptied before (expiry, completion, cancellation).
+func VH_C08_Expiry() {
+	vhReset()
+	st := vhStore("dir")
+	conf := vhConf(st)
+	conf.Storage.GC.GracePeriod = time.Minute
+	s := New(conf)
+	rounds := 2 + vh.Choice("rounds", 2)
+	fire := func() {
+		// the idle time passes and every armed timer goes off
+		vclock.Advance(3 * time.Minute)
+		for _, t := range vclock.Armed() {
+			t.Fire()
+		}
+		vh.Sched()
+	}
+	for r := 0; r < rounds; r++ {
+		p := vhDo(s, "POST", "/v2/a/blobs/uploads/", nil, nil, nil)
+		vh.Assert(p.Status() == 202, "C08.setup")
+		id := vhSessionID(p)
+		off := int64(0)
+		if vh.Bool("chunk") {
+			c := vhDo(s, "PATCH", "/v2/a/blobs/uploads/"+id, vhQ("state", vhStateToken(0)), nil, []byte("part"))
+			vh.Assert(c.Status() == 202, "C08.setup")
+			off = 4
+		}
+		how := 0
+		if r < rounds-1 {
+			how = vh.Choice("end", 3)
+		}
+		vh.Tag("round", strconv.Itoa(r)+":"+[]string{"expire", "complete", "cancel"}[how])
+		switch how {
+		case 0:
+			fire()
+			g := vhDo(s, "GET", "/v2/a/blobs/uploads/"+id, nil, nil, nil)
+			vh.Assert(g.Status() >= 400 && g.Status() < 500, "C08.expired-session-still-exists")
+			w := vhDo(s, "PATCH", "/v2/a/blobs/uploads/"+id, vhQ("state", vhStateToken(off)), nil, []byte("more"))
+			vh.Assert(w.Status() >= 400 && w.Status() < 500, "C08.expired-session-accepts-data")
+			d := digest.Canonical.FromBytes([]byte("part"))
+			f := vhDo(s, "PUT", "/v2/a/blobs/uploads/"+id, vhQ("state", vhStateToken(off), "digest", d.String()), nil, nil)
+			vh.Assert(f.Status() >= 400 && f.Status() < 500, "C08.expired-session-completes")
+			vh.Assert(vhGetBlob(s, "a", d).Status() == 404, "C08.partial-content-became-a-blob")
+			if st == config.StoreDir {
+				vh.Assert(vhUploadFiles("a") == 0, "C08.no-temp-residue")
+			}
+			vh.Cover("C08.expired")
+		case 1:
+			body := []byte("rest" + strconv.Itoa(r))
+			all := body
+			if off > 0 {
+				all = append([]byte("part"), body...)
+			}
+			d := digest.Canonical.FromBytes(all)
+			f := vhDo(s, "PUT", "/v2/a/blobs/uploads/"+id, vhQ("state", vhStateToken(off), "digest", d.String()), nil, body)
+			vh.Assert(f.Status() == 201, "C08.complete")
+		case 2:
+			vh.Assert(vhDo(s, "DELETE", "/v2/a/blobs/uploads/"+id, nil, nil, nil).Status() == 202, "C08.cancel")
+		}
+	}
+	vh.Cover("C08.expiry-end")
 }
